@@ -25,7 +25,7 @@
      walk_nv            the work-list BEFORE the fix (no visited set), kept as the record of the defect
      cost d G c         the number of paths of G that start at c (the empty path included), to depth d
      depth_ok d G c     every chain of edges of the table G starting at c has at most d edges *)
-From FB Require Import C15.Model C15.Theory C15.Theory2 C15.Theory3.
+From FB Require Import C15.Model C15.Theory C15.Theory2 C15.Theory3 C15.Theory4.
 From Coq Require Import Relations.Relation_Operators.
 
 (* 1. bridge_iff: the pairs collected by Jar::get_specialized_methods are exactly the bridge pairs *)
@@ -397,3 +397,143 @@ Print Assumptions C15_fuel_examples.
 Theorem C15_examples : nonvacuous.
 Proof. exact nonvacuous_holds. Qed.
 Print Assumptions C15_examples.
+
+(* 7. SpecializedMethods::remap (round 5).  Between detection and insertion BOTH tables of the SpecializedMethods
+   value are re-expressed in intermediary names.  The tables are not inverse to each other (several bridges may share a
+   delegate), so each is remapped on its own.  f = map_method_ref_obj R I is the remapper's lookup, `img f e e'` says
+   that both components of e' are the f-images of the components of e. *)
+
+(* every pair has an image and the images of the keys are pairwise distinct: the result is EXACTLY the list of images,
+   in the same order — no entry dropped, merged or reordered *)
+Theorem C15_remap_pairs_exact : forall R I l l',
+  Forall2 (fun e e' => map_method_ref_obj R I (fst e) = Ok (fst e') /\ map_method_ref_obj R I (snd e) = Ok (snd e')) l l' ->
+  NoDup (map fst l') -> remap_pairs R I l = Ok l'.
+Proof. exact remap_pairs_exact. Qed.
+Print Assumptions C15_remap_pairs_exact.
+
+(* a remapper that renames nothing returns the table itself *)
+Theorem C15_remap_pairs_identity : forall R I l,
+  (forall e, In e l -> map_method_ref_obj R I (fst e) = Ok (fst e) /\ map_method_ref_obj R I (snd e) = Ok (snd e)) ->
+  NoDup (map fst l) -> remap_pairs R I l = Ok l.
+Proof. exact remap_pairs_identity. Qed.
+Print Assumptions C15_remap_pairs_identity.
+
+(* without injectivity: one entry per key; the entry of b' holds the image of the delegate of the LAST pair whose
+   first component becomes b'; every entry comes from a pair; the first component of every pair is a key *)
+Theorem C15_remap_pairs_general : forall R I l P,
+  remap_pairs R I l = Ok P ->
+  NoDup (map fst P) /\
+  (forall b', map_get mref_eqb b' P = last_remap (map_method_ref_obj R I) l b') /\
+  (forall b' s', In (b', s') P -> exists b s, In (b, s) l /\ map_method_ref_obj R I b = Ok b' /\ map_method_ref_obj R I s = Ok s') /\
+  (forall b s, In (b, s) l -> exists b' s' s'', map_method_ref_obj R I b = Ok b' /\ map_method_ref_obj R I s = Ok s' /\ In (b', s'') P).
+Proof. exact remap_pairs_general. Qed.
+Print Assumptions C15_remap_pairs_general.
+
+Theorem C15_remap_pairs_err_iff : forall R I l,
+  remap_pairs R I l = Err <->
+  exists e, In e l /\ (map_method_ref_obj R I (fst e) = Err \/ map_method_ref_obj R I (snd e) = Err).
+Proof. exact remap_pairs_err_iff. Qed.
+Print Assumptions C15_remap_pairs_err_iff.
+
+(* the value as a whole: remap answers with both tables remapped independently, an error iff one of them is *)
+Theorem C15_remap_both_ok_iff : forall R I b2s s2b P Q,
+  remap_both R I (b2s, s2b) = Ok (P, Q) <-> remap_pairs R I b2s = Ok P /\ remap_pairs R I s2b = Ok Q.
+Proof. exact remap_both_ok_iff. Qed.
+Print Assumptions C15_remap_both_ok_iff.
+
+Theorem C15_remap_both_err_iff : forall R I b2s s2b,
+  remap_both R I (b2s, s2b) = Err <-> remap_pairs R I b2s = Err \/ remap_pairs R I s2b = Err.
+Proof. exact remap_both_err_iff. Qed.
+Print Assumptions C15_remap_both_err_iff.
+
+(* BOTH maps are preserved, entry by entry and in order *)
+Theorem C15_remap_preserves_both : forall R I b2s s2b P Q,
+  Forall2 (fun e e' => map_method_ref_obj R I (fst e) = Ok (fst e') /\ map_method_ref_obj R I (snd e) = Ok (snd e')) b2s P ->
+  NoDup (map fst P) ->
+  Forall2 (fun e e' => map_method_ref_obj R I (fst e) = Ok (fst e') /\ map_method_ref_obj R I (snd e) = Ok (snd e')) s2b Q ->
+  NoDup (map fst Q) ->
+  remap_both R I (b2s, s2b) = Ok (P, Q).
+Proof. exact remap_both_exact. Qed.
+Print Assumptions C15_remap_preserves_both.
+
+(* no hypothesis on the remapper: no bridge and no delegate loses its entry *)
+Theorem C15_remap_keeps_keys : forall R I b2s s2b P Q,
+  remap_both R I (b2s, s2b) = Ok (P, Q) ->
+  (forall b s, In (b, s) b2s -> exists b' x, map_method_ref_obj R I b = Ok b' /\ In (b', x) P) /\
+  (forall s b, In (s, b) s2b -> exists s' x, map_method_ref_obj R I s = Ok s' /\ In (s', x) Q).
+Proof. exact remap_both_keeps_keys. Qed.
+Print Assumptions C15_remap_keeps_keys.
+
+(* the relation between the two tables (C15_s2b_spec) survives a remap that merges no two bridges of the jar *)
+Theorem C15_remap_keeps_inverse : forall J R I b2s s2b P Q,
+  get_specialized J = Ok (b2s, s2b) ->
+  remap_both R I (b2s, s2b) = Ok (P, Q) ->
+  (forall b1 s1 b2 s2 x, In (b1, s1) b2s -> In (b2, s2) b2s ->
+     map_method_ref_obj R I b1 = Ok x -> map_method_ref_obj R I b2 = Ok x -> b1 = b2) ->
+  (forall s' b', In (s', b') Q -> In (b', s') P) /\
+  (forall b' s', In (b', s') P -> exists b'', In (s', b'') Q) /\
+  NoDup (map fst P) /\ NoDup (map fst Q).
+Proof. exact remap_keeps_inverse. Qed.
+Print Assumptions C15_remap_keeps_inverse.
+
+(* remap_sm = `main_jar.get_specialized_methods()?.remap(&remapper_calamus)?`; what reaches the insertion loop of
+   add_specialized_methods_to_mappings is its first component, and its error is the function's error *)
+Theorem C15_add_uses_remap_sm : forall J cal libs M M',
+  add_specialized J cal libs M = Ok M' ->
+  exists P Q, remap_sm J cal libs = Ok (P, Q) /\ add_pairs (named_ref J cal libs M) P M = Ok M'.
+Proof. exact add_uses_remap_sm. Qed.
+Print Assumptions C15_add_uses_remap_sm.
+
+Theorem C15_remap_sm_err_add_err : forall J cal libs M, remap_sm J cal libs = Err -> add_specialized J cal libs M = Err.
+Proof. exact remap_sm_err_add_err. Qed.
+Print Assumptions C15_remap_sm_err_add_err.
+
+Theorem C15_remap_sm_spec : forall J cal libs P Q,
+  remap_sm J cal libs = Ok (P, Q) ->
+  exists b2s s2b, get_specialized J = Ok (b2s, s2b) /\
+    NoDup (map fst P) /\ NoDup (map fst Q) /\
+    (forall k, map_get mref_eqb k P = last_remap (cal_ref J cal libs) b2s k) /\
+    (forall k, map_get mref_eqb k Q = last_remap (cal_ref J cal libs) s2b k) /\
+    (forall b s, In (b, s) b2s -> exists b' x, cal_ref J cal libs b = Ok b' /\ In (b', x) P) /\
+    (forall s b, In (s, b) s2b -> exists s' x, cal_ref J cal libs s = Ok s' /\ In (s', x) Q).
+Proof. exact remap_sm_spec. Qed.
+Print Assumptions C15_remap_sm_spec.
+
+(* non-vacuity: class A and its subclass B each carry a bridge for A.m(LI;)V; calamus renames both classes and has a
+   NAME-LESS entry for the bridge in B's row (its intermediary name comes from A's row through inheritance); the
+   first table keeps its two entries, the second its one; an empty calamus set returns the tables themselves *)
+Theorem C15_remap_example : remap_example.
+Proof. exact remap_example_holds. Qed.
+Print Assumptions C15_remap_example.
+
+(* 8. entries without a name (round 5).  Mappings::remapper_b registers a member only when it has a name in BOTH
+   namespaces of the remapper and a class row only when the class has: a name-less entry leaves the remapper's tables
+   as they are, and a row that does not hold the key sends the lookup on to the super types, in parent-list order *)
+Theorem C15_nameless_method_ignored : forall Tf Tt from to t m,
+  nth_name (m_names m) from = None \/ nth_name (m_names m) to = None ->
+  add_method_row Tf Tt from to (Ok t) m = Ok t.
+Proof. exact nameless_method_ignored. Qed.
+Print Assumptions C15_nameless_method_ignored.
+
+Theorem C15_nameless_class_ignored : forall Tf Tt from to R c,
+  nth_name (c_names c) from = None \/ nth_name (c_names c) to = None ->
+  add_class_row Tf Tt from to (Ok R) c = Ok R.
+Proof. exact nameless_class_ignored. Qed.
+Print Assumptions C15_nameless_class_ignored.
+
+Theorem C15_lookup_goes_on : forall R I owner k f,
+  (forall cl, map_get str_eqb owner R = Some cl -> map_get key_eqb k (snd cl) = None) ->
+  map_method_fail (S f) R I owner k
+  = match supers I owner with
+    | Some ss => first_some (fun s => map_method_fail f R I s k) ss
+    | None => Ok None
+    end.
+Proof. exact lookup_goes_on. Qed.
+Print Assumptions C15_lookup_goes_on.
+
+(* pinned, end to end: Sub extends Mid extends Base, bridge Sub.m(Object)V -> Sub.m(Integer)V; the named mappings hold
+   a name-less entry (one parameter name) for the bridge in Sub's own row and `setData` in Base's row: the delegate
+   gets [m_2, setData], the name-less entry stays untouched *)
+Theorem C15_nameless_example : nameless_example.
+Proof. exact nameless_example_holds. Qed.
+Print Assumptions C15_nameless_example.
